@@ -123,11 +123,14 @@ enum Target {
     Sink,
 }
 
-struct SharedBuf(Arc<Mutex<Vec<u8>>>);
+/// a stream that accepts at most `1` bytes per `write` call (0 = everything), like a pipe or
+/// socket that takes short writes: callers must honour the returned count
+struct SharedBuf(Arc<Mutex<Vec<u8>>>, usize);
 impl std::io::Write for SharedBuf {
     fn write(&mut self, buf: &[u8]) -> std::io::Result<usize> {
-        self.0.lock().unwrap().extend_from_slice(buf);
-        Ok(buf.len())
+        let k = if self.1 == 0 { buf.len() } else { buf.len().min(self.1) };
+        self.0.lock().unwrap().extend_from_slice(&buf[..k]);
+        Ok(k)
     }
     fn flush(&mut self) -> std::io::Result<()> {
         Ok(())
@@ -154,7 +157,7 @@ fn run(p: &Prob, cfg: &Cfg, target: Target, scratch: &str) -> RunResult {
         let fpath = format!("{}/skel_print_{:?}.txt", scratch, std::thread::current().id());
         match target {
             Target::Buffer => solver.print_to_buffer(),
-            Target::Stream => solver.print_to_stream(Box::new(SharedBuf(shared.clone()))),
+            Target::Stream => solver.print_to_stream(Box::new(SharedBuf(shared.clone(), 13))),
             Target::File => solver.print_to_file(std::fs::File::create(&fpath).unwrap()),
             Target::Sink => solver.print_to_sink(),
         }
@@ -935,7 +938,7 @@ fn main() {
                             let f = std::fs::OpenOptions::new().create(true).append(true).open(fpath(*id)).expect("open");
                             solver.print_to_file(f)
                         }
-                        2 => solver.print_to_stream(Box::new(SharedBuf(streams[*id].clone()))),
+                        2 => solver.print_to_stream(Box::new(SharedBuf(streams[*id].clone(), [0usize, 7, 64][*id % 3]))),
                         3 => solver.print_to_sink(),
                         4 => solver.print_to_buffer(),
                         5 => {
